@@ -30,31 +30,33 @@ Findings (`_classify`, family slug computed from the concrete commit):
 missing-message, encoding-false, person-ident-noncanonical,
 git-extra-line-boundary.
 
-Mutants this was built against (scratch worktree, breezy/git/mapping.py):
-see the list at the end of this docstring, filled in after the self-test.
-  M1 `commit.commit_time != commit.author_time` -> `<` (author-timestamp only when later)  oracle
-  M2 export: `git-implicit-encoding` ignored (always utf-8) ............................. oracle
-  M3 `_author_timezone_neg_utc` read from `commit-timezone-neg-utc` ..................... oracle
-  M4 import: `if commit.committer != commit.author` dropped / export author default ..... T2 / oracle
-  M5 fix_person_identifier: `username[:-1]` applied unconditionally ..................... oracle
-  M6 mergetag loop starts at `git-mergetag-1` ........................................... oracle
-  M7 git-extra: `l.split(" ", 1)` -> `l.split(" ")` (values with spaces) ................ oracle
-  M8 author-timezone compared with `commit_time` (wrong field) .......................... oracle
-  harmless: `for encoding in ("utf-8", "latin1")` loop unrolled; property dict built in another order
+Mutants this was built against (scratch worktree, breezy/git/mapping.py); "oracle" = a
+concrete commit whose re-export differs, T2 = model/implementation mismatch:
+  M1 `commit.commit_time != commit.author_time` -> `<` ................................. oracle + T2
+  M2 export ignores `git-implicit-encoding` (always utf-8) ............................. oracle + T2
+  M3 `_author_timezone_neg_utc` read from `commit-timezone-neg-utc` .................... oracle + T2
+  M4 import compares only the first 3 bytes of committer/author (needs a shared prefix)  oracle + T2
+  M5 fix_person_identifier: `username[:-1]` unconditionally ............................ T2 (fix stream;
+       behaviour-preserving on canonical identifiers)
+  M6 mergetag loop starts at `git-mergetag-1` ......................................... oracle + T2
+  M7 git-extra `l.split(" ", 1)` -> `l.split(" ")[:2]` (values with spaces) ............. oracle + T2
+  M8 author-timezone compared with `commit_time` (wrong field) ......................... oracle + T2
+  harmless: neg-utc property assignments swapped; encoding loop over a list slice -> clean
 """
 import itertools
 
 THEOREMS = [
     "exp_imp_id_partial",
     "revid_stable",
+    "revid_independent",
     "imp_rejects_unknown_extra",
     "imp_rejects_unknown_hg_extra",
     "fixPerson_canonical",
+    "canon_example_ok",
     "missing_message_witness",
     "encoding_false_witness",
     "person_ident_witness",
     "git_extra_line_boundary_witness",
-    "canon_example_ok",
 ]
 RULE = ("commits drawn from a field grammar (see module docstring); a case is one commit in one "
         "strictness mode; non-trivial = anything beyond tree+idents+message is present or the "
